@@ -154,7 +154,7 @@ theorem consult_out (cfg : Cfg) (H : Hashes) (s : State) (p : Prompt) (zr yr : R
 theorem consult_cache (cfg : Cfg) (H : Hashes) (s : State) (p : Prompt) (zr yr : Resp) :
     (consult cfg H s p zr yr).1.cache = s.cache ∨
     (∃ z y, zr = .ret z ∧ yr = .ret y ∧ p.enc = true ∧ cfg.cacheOn = true ∧
-      (consult cfg H s p zr yr).1.cache = cacheStore (H.md5 p.id) (gateResult H cfg.gate p z y) s.now s.cache) := by
+      (consult cfg H s p zr yr).1.cache = cacheStore (H.md5 p.id) (gateResult H cfg.gate p z y) s.now cfg.gate s.cache) := by
   unfold consult
   cases zr with
   | exc => simp [callExecutor]
@@ -179,13 +179,14 @@ theorem cacheFind_some {k : Nat} {c : List Entry} {e : Entry} (h : cacheFind k c
 theorem checkCache_spec (cfg : Cfg) (H : Hashes) (s : State) (p : Prompt) :
     (∀ e ∈ (checkCache cfg H s p).1.cache, e ∈ s.cache) ∧
     (∀ r, (checkCache cfg H s p).2 = some r → (checkCache cfg H s p).1 = s ∧
-        ∃ e ∈ s.cache, e.key = H.md5 p.id ∧ e.res = r ∧ (s.now : Int) - (e.ts : Int) < cfg.ttl) := by
+        ∃ e ∈ s.cache, e.key = H.md5 p.id ∧ e.res = r ∧ (s.now : Int) - (e.ts : Int) < cfg.ttl ∧ e.gate = cfg.gate) := by
   unfold checkCache
   split
   · rename_i e he
     have hm := cacheFind_some he
     split
-    · simp; exact ⟨e, hm.1, hm.2, rfl, by assumption⟩
+    · rename_i hfresh
+      simp; exact ⟨e, hm.1, hm.2, rfl, hfresh.1, hfresh.2⟩
     · simp [cacheErase]; intro a ha _; exact ha
   · simp
 
@@ -212,7 +213,7 @@ theorem afterCircuit_out (cfg : Cfg) (H : Hashes) (s : State) (p : Prompt) (zr y
       | some r =>
         right
         have := hcs.2 r rfl
-        obtain ⟨hs, e, he, hk, hr, ht⟩ := this
+        obtain ⟨hs, e, he, hk, hr, ht, _⟩ := this
         simp at hs
         subst hs
         exact ⟨rfl, e, he, hk, ht, by simp [hr]⟩
@@ -224,12 +225,35 @@ theorem afterCircuit_out (cfg : Cfg) (H : Hashes) (s : State) (p : Prompt) (zr y
         simp at hcf
         omega
 
+/-- a cache hit is served from an entry stored under this prompt's key that was decided under the gate logic
+    configured NOW -/
+theorem afterCircuit_hit_gate (cfg : Cfg) (H : Hashes) (s : State) (p : Prompt) (zr yr : Resp)
+    (hk : (afterCircuit cfg H s p zr yr).2.kind = .cacheHit) :
+    ∃ e ∈ s.cache, e.key = H.md5 p.id ∧ e.gate = cfg.gate ∧
+      (afterCircuit cfg H s p zr yr).2 = ⟨.cacheHit, some { e.res with cached := true }⟩ := by
+  revert hk
+  unfold afterCircuit
+  cases hc : cfg.cacheOn
+  · intro hk; exact absurd hk (consult_spec cfg H s p zr yr).2.2.2.2.1
+  · cases hp : p.enc
+    · intro hk; simp at hk
+    · simp only [↓reduceIte]
+      have hcs := checkCache_spec cfg H s p
+      generalize hck : checkCache cfg H s p = ck at hcs
+      obtain ⟨s1, o⟩ := ck
+      cases o with
+      | some r =>
+        intro _
+        obtain ⟨_, e, he, hk', hr, _, hg⟩ := hcs.2 r rfl
+        exact ⟨e, he, hk', hg, by simp [hr]⟩
+      | none => intro hk; exact absurd hk (consult_spec cfg H s1 p zr yr).2.2.2.2.1
+
 /-- cache after an admitted request: every entry was there before or is the freshly stored gate result -/
 theorem afterCircuit_cache (cfg : Cfg) (H : Hashes) (s : State) (p : Prompt) (zr yr : Resp) :
     (∀ e ∈ (afterCircuit cfg H s p zr yr).1.cache, e ∈ s.cache) ∨
     (∃ z y c, zr = .ret z ∧ yr = .ret y ∧ p.enc = true ∧ cfg.cacheOn = true ∧ (∀ e ∈ c, e ∈ s.cache) ∧
       (afterCircuit cfg H s p zr yr).2 = consultOut cfg H p zr yr ∧
-      (afterCircuit cfg H s p zr yr).1.cache = cacheStore (H.md5 p.id) (gateResult H cfg.gate p z y) s.now c) := by
+      (afterCircuit cfg H s p zr yr).1.cache = cacheStore (H.md5 p.id) (gateResult H cfg.gate p z y) s.now cfg.gate c) := by
   unfold afterCircuit
   cases hc : cfg.cacheOn
   · simp only [Bool.false_eq_true, ↓reduceIte]
